@@ -19,7 +19,8 @@ def main(pid, tier):
     ck.add_tlc(r, "EmuMC/EmuMC_C17.cfg (marks: stack type 1, single type 2)")
     if r.violated:
         ck.violation("model violates %s" % r.violated, {"tlc.out": r.out[-20000:]})
-    emuhist.conformance(ck, bdir, g, tier, limit_quick=4000, limit_thorough=60000, label="C17/emu")
+    emuhist.conformance(ck, bdir, g, tier, limit_quick=4000, limit_thorough=60000, label="C17/emu",
+                        pairs=600 if tier == "quick" else 20000, pair_same=emuhist.same_category)
     ck.phase("transition_cover")
     try:
         from checks import marks_rt
